@@ -5,6 +5,8 @@ import os
 
 import vlib
 
+PROPS = ["C01", "C02", "C11"]
+
 # per property and tier: (cfg, mode); mode "edges" = role A + per-transition emission + edge cover,
 # "model" = role A only (exhaustive, larger bounds), "sim" = role B by seeded TLC simulation
 CONFIGS = {
